@@ -145,7 +145,10 @@ def _find_in_dirs_and_read(import_dirs):
                     # TODO(bolms): Check if any other files with the same name are in the
                     # import path, and give a warning or error?
                     return f.read(), None
-            except IOError as e:
+            except (IOError, ValueError) as e:
+                # open() raises ValueError, not IOError, for a name that cannot be a
+                # file name at all (one containing a NUL character), and read() raises
+                # it (as UnicodeDecodeError) for a file that is not text.
                 errors.append(str(e))
         return None, errors + ["import path " + ":".join(import_dirs)]
 
